@@ -52,6 +52,9 @@ def do_replay(prop, path, verify):
         if expect["signature"] in live or verify:
             print("VIOLATION property=%s replay=%s" % (prop, path))
             return 1
+        print("KNOWN-FINDING: property=%s %s" % (prop, core.match_known(known, expect["signature"])))
+        if not live:
+            return 0
     if live:
         print("VIOLATION property=%s replay=%s" % (prop, path))
         return 1
